@@ -29,11 +29,12 @@ func (w *World) refusedBySwitch(r *Resp, what string) bool {
 //
 //	Tag: tag reference ("" = by digest with algorithm Algo); CT: "own" (declared type), "none", or a literal type;
 //	QD: "" | "ok" | "bad" | "badfmt" (?digest=); Len: "unknown" sends without Content-Length; Decl: "wrong" pushes under another digest.
-func (w *World) opManPush(op Op) *Resp {
-	repo := w.repoName(op.Repo)
+// manPushParams derives what a manifest push operation sends.
+func (w *World) manPushParams(op Op) (repo, ref, ct, qd string, body []byte) {
+	repo = w.repoName(op.Repo)
 	o := w.obj(op.Obj)
-	body := o.data
-	ref := op.Tag
+	body = o.data
+	ref = op.Tag
 	if ref == "" {
 		algo := op.Algo
 		ref = o.digest(algo)
@@ -44,7 +45,7 @@ func (w *World) opManPush(op Op) *Resp {
 			ref = "sha256:beef"
 		}
 	}
-	ct := op.CT
+	ct = op.CT
 	switch ct {
 	case "", "own":
 		ct = o.mediaType()
@@ -58,8 +59,6 @@ func (w *World) opManPush(op Op) *Resp {
 	case "upper":
 		ct = strings.ToUpper(o.mediaType())
 	}
-	q := url.Values{}
-	qd := ""
 	switch op.QD {
 	case "ok":
 		qd = o.digest(op.Algo2)
@@ -68,6 +67,12 @@ func (w *World) opManPush(op Op) *Resp {
 	case "badfmt":
 		qd = "sha256:nothex"
 	}
+	return
+}
+
+func (w *World) opManPush(op Op) *Resp {
+	repo, ref, ct, qd, body := w.manPushParams(op)
+	q := url.Values{}
 	if qd != "" {
 		q.Set("digest", qd)
 	}
@@ -1195,7 +1200,11 @@ func (w *World) checkDesc(x *MMan, d string, g descJSON) {
 // faulted reports (and remembers) that an injected disk fault hit this request: nothing beyond the generic oracles is claimed then.
 func (w *World) faulted(r *Resp, repo string) bool {
 	if w.faultOverlapped(r) {
-		w.tainted[repo] = true
+		if w.k.FaultRecover && !w.tainted[repo] {
+			w.pendingFault[repo] = true
+		} else {
+			w.tainted[repo] = true
+		}
 		return true
 	}
 	return false
